@@ -456,8 +456,11 @@ impl HierarchicalKeyDerivation {
             current_chaincode = new_chaincode;
         }
 
-        // Derive ML-DSA key material deterministically
-        let mut derived = vec![0u8; ML_DSA_PUB_LEN + ML_DSA_SEC_LEN];
+        // Derive ML-DSA key material deterministically: expand to the 32-byte
+        // key-generation seed and run the real FIPS 204 key generation on it (the two
+        // halves of a key pair cannot be expanded independently of each other).
+        use saorsa_pqc::dsa_traits::{KeyGen, SerDes};
+        let mut derived = [0u8; 32];
         HkdfSha3_256::derive(
             &current_key,
             Some(&current_chaincode),
@@ -469,8 +472,11 @@ impl HierarchicalKeyDerivation {
                 "HKDF derivation failed".to_string().into(),
             ))
         })?;
-        let pub_bytes = &derived[..ML_DSA_PUB_LEN];
-        let sec_bytes = &derived[ML_DSA_PUB_LEN..];
+        let (derived_public, derived_secret) = saorsa_pqc::ml_dsa_65::KG::keygen_from_seed(&derived);
+        let pub_bytes = derived_public.into_bytes();
+        let sec_bytes = derived_secret.into_bytes();
+        let pub_bytes = &pub_bytes[..];
+        let sec_bytes = &sec_bytes[..];
         let public_key = MlDsaPublicKey::from_bytes(pub_bytes).map_err(|e| {
             P2PError::Security(SecurityError::InvalidKey(
                 format!("Invalid ML-DSA public key: {e}").into(),
